@@ -16,7 +16,7 @@
 //   set_shared|set_persistent a b f                 set_name b name
 //   h_copy|h_move b l=[target slot]                 h_drop b
 //   clear_props a l=[kind]   clear_all_props a   clear a f
-//   write b l=[index,value]  set_vertex a l=[vertex,p]   persist_pos a f
+//   write b l=[index,value]  set_vertex a l=[vertex,p]   persist_pos a f   pos_handle a b (slot := vertex_positions())
 //   mesh_new a l=[type 1 poly 2 tet 3 hex]  mesh_copy a l=[source]  mesh_assign a l=[source]
 //   mesh_destroy a   teardown f (f: meshes first)
 //   kernel calls on mesh a: add_vertex add_edge add_face_v add_cell delete_* collect_garbage
@@ -156,6 +156,14 @@ struct HBase {
     virtual void set_shared(TopologyKernel &m, bool on) = 0;
     virtual void set_persistent(TopologyKernel &m, bool on) = 0;
 };
+template <class T> struct Val {
+    static long long code(const T &v) { return (long long)v; }
+    static T make(long long v) { return (T)v; }
+};
+template <> struct Val<Vec3d> {
+    static long long code(const Vec3d &v) { return vec_code(v); }
+    static Vec3d make(long long v) { return Vec3d((double)v, (double)v, (double)v); }
+};
 template <class T, class Tag> struct H : HBase {
     PropertyPtr<T, Tag> p;
     H(PropertyPtr<T, Tag> pp, int k, int t) : p(std::move(pp)) { kind = k; type = t; }
@@ -173,10 +181,10 @@ template <class T, class Tag> struct H : HBase {
         j.kv("sh", p.shared());
         j.kv("pe", p.persistent());
         j.kv("sz", p.size());
-        j.kv("d", (long long)p.def());
-        j.key("v"); j.begin_arr(); for (auto it = p.begin(); it != p.end(); ++it) j.val((long long)(T)*it); j.end_arr();
+        j.kv("d", Val<T>::code(p.def()));
+        j.key("v"); j.begin_arr(); for (auto it = p.begin(); it != p.end(); ++it) j.val(Val<T>::code((T)*it)); j.end_arr();
     }
-    void write(size_t idx, long long v) override { p[HandleT<Tag>((int)idx)] = (T)v; }
+    void write(size_t idx, long long v) override { p[HandleT<Tag>((int)idx)] = Val<T>::make(v); }
     void set_name(const std::string &s) override { p.set_name(s); }
     void set_shared(TopologyKernel &m, bool on) override { m.set_shared(p, on); }
     void set_persistent(TopologyKernel &m, bool on) override { m.set_persistent(p, on); }
@@ -294,6 +302,12 @@ static std::string do_call(World &w, const CallRec &c) {
             w.live(c.a);
             w.M(c.a).visit([&](auto &mm) { mm.set_persistent(mm.vertex_positions(), c.f); return 0; });
             return "ok";
+        }
+        if (op == "pos_handle") {
+            w.live(c.a);
+            w.M(c.a).visit([&](auto &mm) {
+                w.put(c.b, std::unique_ptr<HBase>(new H<Vec3d, Entity::Vertex>(mm.vertex_positions(), 1, 3))); return 0; });
+            return "ptr";
         }
         if (op == "mesh_new") {
             MeshSlot &m = w.M(c.a);
